@@ -166,6 +166,31 @@ theorem split_facts {o a b : Order} {f : Int} (h : o.split f = .ok (a, b)) : Spl
   · intro d; simp only [amountOf_dropZero, hf3 d]; omega
   · intro d; simp only [amountOf_dropZero]; exact hf2 d
 
+theorem splitFees_ok_iff (f total : Int) (fees : Coins) :
+    (∃ ff, splitFees f total fees = .ok ff) ↔
+      ∀ c ∈ fees, fits256 (c.2 * f) = true ∧ (c.2 * f).tmod total = 0 := by
+  induction fees with
+  | nil => simp [splitFees]
+  | cons c rest ih =>
+    obtain ⟨d, x⟩ := c
+    simp only [splitFees, List.mem_cons, forall_eq_or_imp]
+    constructor
+    · rintro ⟨ff, h⟩
+      split at h; · simp at h
+      rename_i p hp
+      obtain ⟨rfl, hfit⟩ := mul_ok hp
+      split at h; · simp at h
+      rename_i hrem
+      split at h; · simp at h
+      rename_i r hr
+      exact ⟨⟨hfit, by simpa using hrem⟩, ih.mp ⟨r, hr⟩⟩
+    · rintro ⟨⟨hfit, hrem⟩, hrest⟩
+      obtain ⟨r, hr⟩ := ih.mpr hrest
+      have : mul x f = .ok (x * f) := by simp [mul, hfit]
+      simp only [this, hrem, ne_eq, not_true_eq_false, if_false, hr]
+      exact ⟨_, rfl⟩
+
+
 /-! ### index sums -/
 
 /-- `Σ_{k=i}^{i+n-1} g k` -/
